@@ -29,6 +29,14 @@ type Gen struct {
 	arrSet  bool
 	fnSet   bool
 	Pre     []node.Type // definitions to run before the program (functions)
+	Mirror  *Session    // second session receiving the same preset globals (twin comparisons)
+}
+
+func (g *Gen) setGlobal(name string, v value.Type) {
+	g.S.M.SetGlobal(name, v)
+	if g.Mirror != nil {
+		g.Mirror.M.SetGlobal(name, v)
+	}
 }
 
 func NewGen(s *Session) *Gen {
@@ -48,7 +56,7 @@ func (g *Gen) poly(k int) node.Type {
 	name := "p" + strconv.Itoa(k)
 	if !g.polySet[k] {
 		g.polySet[k] = true
-		g.S.M.SetGlobal(name, value.VerifPoly(name))
+		g.setGlobal(name, value.VerifPoly(name))
 	}
 	return node.Name(name)
 }
@@ -56,7 +64,7 @@ func (g *Gen) poly(k int) node.Type {
 func (g *Gen) strGlobal() node.Type {
 	if !g.strSet {
 		g.strSet = true
-		g.S.M.SetGlobal("s", value.NewString(vrt.Bytes("s", vrt.Choice("s.len", 3))))
+		g.setGlobal("s", value.NewString(vrt.Bytes("s", vrt.Choice("s.len", 3))))
 	}
 	return node.Name("s")
 }
@@ -69,7 +77,7 @@ func (g *Gen) arrGlobal() node.Type {
 		for i := 0; i < n; i++ {
 			a = append(a, value.NewInt(vrt.Int("a.elem")))
 		}
-		g.S.M.SetGlobal("a", value.NewArray(a))
+		g.setGlobal("a", value.NewArray(a))
 	}
 	return node.Name("a")
 }
